@@ -7,6 +7,7 @@
 from __future__ import annotations
 
 from decimal import Decimal
+import math
 from fractions import Fraction
 
 from hypothesis import strategies as st
@@ -25,7 +26,7 @@ RULE = (
     "Non-trivial: operands in different units or of different classes; distinct = (family, classes, units)."
 )
 ASSUMPTIONS = [
-    "ties: exact SI values closer than 1e-5 x total degree (different base units) or 1e-9 (same base units) relative; ties get only the hash clause and reflexivity",
+    "ties: exact SI values closer than 1e-5 x total degree (different base units) or 1e-12 (same base units) relative; ties get only the hash clause and reflexivity",
     "hash clause applies whenever the library itself reports a == b",
     "symmetry of == for Measurement/Level pairs is not asserted when an interval end point of one is within the tie tolerance of an end point of the other",
 ]
@@ -51,7 +52,7 @@ def strategy(tier):
     TRI = convgen.dok_triple(c)
     MAG = convgen.magnitudes()
     SMALL = st.sampled_from([0, 1, 2, 3, 5, 10, 12, 100, 1000, -1, -5])
-    COPY = st.sampled_from(["int-float-dec", "prefix", "reexpress"])
+    COPY = st.sampled_from(["int-float-dec", "prefix", "reexpress", "nudge"])
     POSF = st.one_of(st.sampled_from([0, 0, 1, 2, 0.5, 0.1, 3, 10]), st.floats(min_value=0, max_value=100, allow_nan=False))
     VAL = st.one_of(st.integers(-20, 20), st.sampled_from([0.5, 1.5, 2.5, 10.0, 100.0]), st.floats(min_value=-100, max_value=100, allow_nan=False))
 
@@ -101,14 +102,44 @@ def strategy(tier):
                      st.integers(-500, 1000), st.floats(min_value=-500, max_value=2000, allow_nan=False))
     TSCALE = st.sampled_from(["kelvin", "celsius", "fahrenheit", "Rankine"])
 
+    TPFX = st.sampled_from(["", "", "", "milli", "kilo", "micro", "mega", "centi", "nano"])
+    t_linear = sorted(n for n, u in c.snap.units.items() if u.dimension is c.m.Temperature and n not in T_ZERO)
+
     @st.composite
     def temps(draw):
         n = draw(st.integers(2, 4))
-        return {"f": "t", "items": [[draw(TSCALE), draw(TVAL)] for _ in range(n)]}
+        if draw(convgen.INT10) < 5:
+            return {"f": "t", "items": [[draw(TSCALE), draw(TVAL)] for _ in range(n)]}
+        # the same temperatures read on prefixed scales and in the other shipped temperature
+        # units (planck temperature): [unit, reading, prefix]
+        items = []
+        for _ in range(n):
+            unit = draw(st.sampled_from(t_linear)) if t_linear and draw(convgen.INT10) < 3 else draw(TSCALE)
+            pfx = draw(TPFX)
+            r = Fraction(draw(TVAL))   # the reading without the prefix (kelvins for the linear units)
+            pv = Fraction(c.snap.prefixes[pfx].base) ** c.snap.prefixes[pfx].exponent if pfx else Fraction(1)
+            size = Fraction(1) if unit in T_ZERO else c.sizes.unit_size(c.snap.units[unit])
+            v = r / (pv * size)
+            items.append([unit, int(v) if v.denominator == 1 and abs(v) < 10**15 else float(v), pfx])
+        return {"f": "t", "items": items}
+
+    from .. import synth
+
+    SYN = synth.world_case(queries=4)
+
+    @st.composite
+    def synlist(draw):
+        """pairs in exactly-consistent synthetic worlds: the same quantity in another unit, then
+        moved by a few parts in 10**10 (decided), or by nothing (a tie)"""
+        case = draw(SYN)
+        return {"f": "s", "world": case["world"], "queries": case["queries"],
+                "nudge": [draw(st.sampled_from([0.0, 1e-10, -1e-10, 3e-11, -2e-10, 1e-6, -0.5])) for _ in case["queries"]]}
 
     @st.composite
     def mix(draw):
         sel = draw(convgen.INT100)
+        if sel < 10:
+            return draw(synlist())
         if sel < 55:
             return draw(qlist())
         if sel < 65:
@@ -142,8 +173,22 @@ def _build_items(c, case):
                     alts = [v]
                     if Fraction(v).denominator == 1 and abs(Fraction(v)) < 10**15:
                         alts = [int(Fraction(v)), float(Fraction(v)), Decimal(int(Fraction(v)))]
+                    elif float(Fraction(v)) == Fraction(v):
+                        alts = [float(Fraction(v)), Decimal(float(Fraction(v))), float(Fraction(v))]
                     new = m.Quantity(alts[(it["u"]) % len(alts)], src.unit)
                 except Exception:
+                    new = src
+            elif how == "nudge":
+                # the same unit, a few parts in 10**10 or 10**11 away: not equal, and ordered
+                v = src.magnitude
+                d = [1e-10, -1e-10, 3e-11, -2e-10][it["u"] % 4]
+                try:
+                    nv = float(v) * (1 + d)
+                    new = m.Quantity(nv, src.unit) if nv != float(v) and math.isfinite(nv) else src
+                    if new is not src and (it["u"] // 4) % 2:
+                        # ... and written under another prefix of the same unit
+                        new = m.Quantity(nv * 1000, c.snap.prefixes["milli"] * src.unit)
+                except (OverflowError, ValueError):
                     new = src
             elif how == "prefix":
                 # 1 km <-> 1000 m style: move an integer power of ten between magnitude and prefix
@@ -219,7 +264,9 @@ def _run_q(case, out):
             if j <= i:
                 continue
             same_base = set(a.unit.factors) == set(b.unit.factors)
-            tol = Fraction(1, 10**9) if same_base else Fraction(1, 10**5) * max(2 * deg, 1)
+            # same base units: only prefixes are multiplied in (rounding ~1e-16), so pairs 1e-12
+            # apart are decided; across declared equivalences the shipped data's own consistency
+            tol = Fraction(1, 10**12) if same_base else Fraction(1, 10**5) * max(2 * deg, 1)
             scale = max(abs(si[i]), abs(si[j]))
             tie = abs(si[i] - si[j]) <= tol * scale
             if tie:
@@ -241,6 +288,9 @@ def _run_q(case, out):
                 if res.get(name) is True and hash(a) != hash(b):
                     if a.unit is not b.unit:
                         kind = "different-unit"
+                    elif Fraction(a.magnitude) == Fraction(b.magnitude):
+                        # the same number (written as int, float or Decimal) of the same unit
+                        kind = "same-unit-same-number"
                     elif a.unit.prefix is not m.IdentityPrefix:
                         kind = "same-unit-prefixed"  # == compares the un-prefixed (rounded) magnitudes
                     else:
@@ -379,12 +429,25 @@ def _run_t(case, out):
     try:
         items = case["items"]
         qs, ks = [], []
-        for scale, v in items:
-            if scale not in T_ZERO or isinstance(v, bool) or not isinstance(v, (int, float)) or v != v or abs(v) > 1e6:
+        for scale, v, *rest in items:
+            pfx = rest[0] if rest else ""
+            if isinstance(v, bool) or not isinstance(v, (int, float)) or v != v or v in (float("inf"), float("-inf")):
                 raise ValueError
-            qs.append(m.Quantity(v, c.snap.units[scale]))
-            a, b = T_ZERO[scale]
-            ks.append(Fraction(v) * a + b)
+            u = c.snap.units[scale]
+            if u.dimension is not m.Temperature or (pfx and pfx not in c.snap.prefixes):
+                raise ValueError
+            pv = Fraction(c.snap.prefixes[pfx].base) ** c.snap.prefixes[pfx].exponent if pfx else Fraction(1)
+            if scale in T_ZERO:
+                a, b = T_ZERO[scale]
+                k = Fraction(v) * pv * a + b   # the prefixed scale reads v when the scale reads v * prefix
+            else:
+                k = Fraction(v) * pv * c.sizes.unit_size(u)
+            if abs(k) > 10**9:
+                raise ValueError
+            qs.append(m.Quantity(v, c.snap.prefixes[pfx] * u if pfx else u))
+            ks.append(k)
+            if pfx or scale not in T_ZERO:
+                out.classes.append("t:prefixed-or-linear-unit")
     except Exception:
         out.invalid = True
         return
@@ -418,15 +481,86 @@ def _run_t(case, out):
                 out.fail("C12:t:sorted", f"sorted({qs!r}) = {got!r}")
         except Exception as e:  # noqa
             out.fail(f"C12:t:raises:{type(e).__name__}@{core.innermost_frame(e)}", f"sorting {qs!r} raised {e!r}")
-    if len({s for s, _ in items}) > 1:
-        out.nontrivial = "t|" + "|".join(f"{s}:{v}" for s, v in items)
+    if len({it[0] for it in items}) > 1:
+        out.nontrivial = "t|" + "|".join(":".join(map(str, it)) for it in items)
         out.sample = {"family": "temperatures", "items": items}
+
+
+def _run_s(case, out):
+    """comparisons across declared equivalences where those are exactly consistent: the
+    tolerance is that of float arithmetic (1e-12 x (degree+1)), not of the shipped data"""
+    from .. import synth
+    from ..sizes import Sizes
+
+    try:
+        spec, queries, nudges = case["world"], case["queries"], case["nudge"]
+        if not synth.valid_spec(spec) or not isinstance(queries, list) or len(nudges) != len(queries):
+            raise ValueError
+        nudges = [float(x) for x in nudges]
+        if any(x != x or abs(x) > 1 for x in nudges):
+            raise ValueError
+    except Exception:
+        out.invalid = True
+        return
+    sw = synth.SynWorld(spec)
+    m = sw.m
+    out.classes.append("s:world")
+    n = 0
+    for q, d in zip(queries, nudges):
+        if not synth.valid_query(sw, q):
+            continue
+        try:
+            mag = convgen.mag_value(q["mag"])
+        except Exception:
+            continue
+        A, B = sw.build(q["src"]), sw.build(q["dst"])
+        if A.dimension is not B.dimension or domain.pair_classes(A, B, m.One) or Fraction(mag) == 0:
+            continue
+        ratio = sw.terms_size(q["src"]) / sw.terms_size(q["dst"])
+        exact_b = Fraction(mag) * ratio * (1 + Fraction(d))
+        try:
+            vb = float(exact_b)
+        except OverflowError:
+            continue
+        if not (1e-200 < abs(vb) < 1e200) or not convgen.range_ok(Sizes(sw.w, m.One), mag, A, B):
+            out.inconclusive = "float-range"
+            continue
+        a, b = m.Quantity(mag, A), m.Quantity(vb, B)
+        sa, sb = Fraction(mag) * sw.terms_size(q["src"]), Fraction(vb) * sw.terms_size(q["dst"])
+        deg = domain.degree(A, m.One) + domain.degree(B, m.One)
+        tie = abs(sa - sb) <= Fraction(1, 10**12) * (deg + 1) * max(abs(sa), abs(sb))
+        try:
+            res = {"==": a == b, "r==": b == a, "<": a < b, ">": a > b, "<=": a <= b, ">=": a >= b, "r<": b < a}
+        except Exception as e:  # noqa
+            out.classes.append(f"s:raised:{type(e).__name__}")  # C07's business
+            continue
+        n += 1
+        for name in ("==", "r=="):
+            if res[name] is True and a.unit is b.unit and Fraction(a.magnitude) == Fraction(b.magnitude) and hash(a) != hash(b):
+                out.fail("C12:hash:same-unit-same-number", f"{a!r} == {b!r} but hashes differ")
+        if tie:
+            out.classes.append("s:tie")
+            if res["=="] and res["<"]:
+                out.fail("C12:s:eq-and-lt", f"{a!r} vs {b!r}: == and < both hold")
+            continue
+        out.classes.append("s:decided-near" if abs(d) <= 1e-9 else "s:decided")
+        lt = sa < sb
+        if res["=="] is not False or res["r=="] is not False:
+            out.fail("C12:s:eq", f"synthetic world: {a!r} == {b!r} reported {res['==']}/{res['r==']}; exact values differ by {float(abs(sa - sb) / max(abs(sa), abs(sb))):.3g} relative")
+        if res["<"] is not lt or res[">"] is not (not lt) or res["r<"] is not (not lt) or res["<="] is not lt or res[">="] is not (not lt):
+            out.fail("C12:s:order", f"synthetic world: {a!r} vs {b!r}: < {res['<']} > {res['>']} <= {res['<=']} >= {res['>=']} reversed < {res['r<']}; exact order a<b is {lt}")
+    if n:
+        out.nontrivial = "s|" + core.case_hash(case)
+        out.sample = {"family": "synthetic world", "pairs_compared": n, "first_query": queries[0]}
+    convgen.ctx()  # the shared world is the active one again
 
 
 def run_case(case) -> core.Outcome:
     out = core.Outcome()
     fam = case.get("f") if isinstance(case, dict) else None
-    if fam == "t":
+    if fam == "s":
+        _run_s(case, out)
+    elif fam == "t":
         _run_t(case, out)
     elif fam == "q":
         _run_q(case, out)
